@@ -296,6 +296,25 @@ theorem schema_cache_serving_misses_witness :
     cached `None` not served (finite table, decided completely) -/
 theorem schema_find_cache_shape_ok : schemaFindShape = expectedSchemaFindShape := by decide +kernel
 
+/-! ### (f) class constants that hold Expression nodes -/
+
+/-- **embedded_copy_keeps_parses_independent**: if the parser embeds a COPY of a node-valued class constant, then after any
+    history of parses and in-place edits of the nodes handed out so far (identifier passes of an upper-casing dialect, …) the
+    next parse still renders the constant's original content — results of different parse calls are independent -/
+theorem embedded_copy_keeps_parses_independent (c0 : Nat) (ops : List HeapOp) :
+    nextParseRenders true (heapRun true (heapInit c0) ops) = some c0 :=
+  nextParse_of_ok (heapRun_ok (heapInit_ok c0) ops)
+
+/-- **witness for embedding the constant itself** (seeded regression C15-7, `UNNEST … WITH OFFSET` default alias): one parse,
+    one in-place edit of its result (`offset` → `OFFSET`), and the next parse renders the edited content; with a copy it does not -/
+theorem embedded_constant_is_shared_witness :
+    nextParseRenders false (heapRun false (heapInit 5) [.parse, .edit 0 99]) = some 99 ∧
+    nextParseRenders true (heapRun true (heapInit 5) [.parse, .edit 0 99]) = some 5 := by decide
+
+/-- the source fact: the constants that hold Expression nodes are exactly the audited ones (none of them in a parser, each one
+    only instantiated through a copy) — a NEW node-valued constant breaks the build -/
+theorem no_shared_expression_nodes_embedded : expressionNodeConstants = expectedExpressionNodeConstants := by decide +kernel
+
 /-- `Dialect.get_or_raise("name, k1 = v1, k2 = v2")`: the keyword settings end up in one dict, so the order in which distinct
     settings are written in the string does not matter for any field of the instance -/
 theorem dialect_settings_order_independent {kv kv' : Assigns} (hn : (kv.map (·.1)).Nodup) (h : kv.Perm kv')
